@@ -548,7 +548,10 @@ pub fn gen_fill3(r: &mut Rng, lat: bool, it: usize) -> (&'static str, u32, (Vec<
             let through = r.below(5) == 0;
             if lat {
                 // integer geometry, scale exactly 1: every face lies on a plane of voxel centres
-                let a = *r.pick(&[3.0f64, 4.0, 5.0, 6.0]); let t = *r.pick(&[1.0f64, 2.0]); let h = *r.pick(&[3.0f64, 4.0, 6.0, 9.0, 12.0]);
+                let a = *r.pick(&[3.0f64, 4.0, 5.0, 6.0]); let t = *r.pick(&[1.0f64, 2.0]);
+                // half of the cups are longest along the opening axis: that axis is then the reference axis of the grid, which is
+                // tight on BOTH ends, so the rim is flush with the grid face also for openings toward +x, +y, +z
+                let h = if r.bool() { 2.0 * a + *r.pick(&[1.0f64, 2.0, 4.0]) } else { *r.pick(&[3.0f64, 4.0, 6.0, 9.0, 12.0]) };
                 let hi = (h - t).max(1.0);
                 let shape = r.below(3);
                 let (ro1, ri1) = match shape { 0 => (a, a - t), 1 => (a - 1.0, a - t - 1.0), _ => (a + 1.0, a - t + 1.0) };
